@@ -72,7 +72,9 @@ func ruleCode128Encoder(c *Ctx) {
 		c.P.deepEach(fn, 2, func(s DeepSite) { scan(s.Fn, s.Path) })
 		var dataCall, checkCall, stopCall *ssa.Call
 		var draw, sumL *rloop
-		for _, call := range callsTo(fn, addBit) {
+		var drawTop ssa.Instruction // the instruction of fn that draws the data patterns (the loop's call, or the helper call)
+		for _, site := range c.P.deepCallsTo(fn, addBit) {
+			call := site.Ins.(*ssa.Call)
 			ix := patternIndex(call)
 			if ix == nil {
 				c.Check(R4, "code128.EncodeWithColor/pattern-source", call.Pos(), false, "patterns come from encodingTable", call.String())
@@ -80,11 +82,19 @@ func ruleCode128Encoder(c *Ctx) {
 			}
 			isData := false
 			for _, l := range loops {
-				if l.F == fn && ix == l.elem && l.hdr.Succs[0].Dominates(call.Block()) {
+				if l.F == site.Fn && ix == l.elem && l.hdr.Succs[0].Dominates(call.Block()) {
 					dataCall, draw, isData = call, l, true
+					drawTop = call
+					if len(site.Path) > 0 {
+						drawTop = site.Path[0]
+					}
 				}
 			}
 			if isData {
+				continue
+			}
+			if site.Fn != fn {
+				c.Check(R4, "code128.EncodeWithColor/pattern-site", call.Pos(), false, "check and stop patterns are appended by EncodeWithColor itself", c.P.FuncName(site.Fn))
 				continue
 			}
 			if k, ok := n.Norm(ix).IsConst(); ok {
@@ -113,21 +123,41 @@ func ruleCode128Encoder(c *Ctx) {
 			n.Ctx = sumL.path
 			s1 := n.Norm(sumL.subj).String()
 			n.Ctx = saved
+			n.Ctx = draw.path
 			s2 := n.Norm(draw.subj).String()
+			n.Ctx = saved
 			c.Check(R4, "code128.EncodeWithColor/same-values", dataCall.Pos(), s1 == s2, "the weighted sum runs over the symbol values that are drawn", fmt.Sprintf("sum over %s, drawn %s", s1, s2))
-			c.Check(R4, "code128.EncodeWithColor/order", stopCall.Pos(), dominatesInstr(checkCall, stopCall) && hdr.Dominates(checkCall.Block()) && !hdr.Succs[0].Dominates(checkCall.Block()), "check pattern after the data, stop last", "ok")
+			orderOK := dominatesInstr(checkCall, stopCall)
+			if draw.F == fn {
+				orderOK = orderOK && hdr.Dominates(checkCall.Block()) && !hdr.Succs[0].Dominates(checkCall.Block())
+			} else {
+				orderOK = orderOK && dominatesInstr(drawTop, checkCall)
+			}
+			c.Check(R4, "code128.EncodeWithColor/order", stopCall.Pos(), orderOK, "check pattern after the data, stop last", "ok")
 			cix := patternIndex(checkCall)
 			if sumL.F == fn {
 				c.expectPoly(R4, "code128.EncodeWithColor/check-index", checkCall.Pos(), n, cix, "sum % 103")
 			} else {
-				// the helper's result: sum % 103 of the finished loop
-				hc, isCall := cix.(*ssa.Call)
-				good := isCall && hc.Common().StaticCallee() == sumL.F && len(sumL.path) == 1 && sumL.path[0] == ssa.CallInstruction(hc)
+				// the helper's result (single, or one of several): sum % 103 of the finished loop
+				var hc *ssa.Call
+				ridx := 0
+				switch x := cix.(type) {
+				case *ssa.Call:
+					hc = x
+				case *ssa.Extract:
+					hc, _ = x.Tuple.(*ssa.Call)
+					ridx = x.Index
+				}
+				good := hc != nil && hc.Common().StaticCallee() == sumL.F && len(sumL.path) == 1 && sumL.path[0] == ssa.CallInstruction(hc)
 				got := n.Norm(cix).String()
 				if good {
 					for _, ret := range returnsOf(sumL.F) {
-						got = n.Norm(ret.Results[0]).String()
-						if !pEqual(n.Norm(ret.Results[0]), MustRef("sum % 103")) || sumL.hdr.Succs[0].Dominates(ret.Block()) {
+						if ridx >= len(ret.Results) {
+							good = false
+							continue
+						}
+						got = n.Norm(ret.Results[ridx]).String()
+						if !pEqual(n.Norm(ret.Results[ridx]), MustRef("sum % 103")) || sumL.hdr.Succs[0].Dominates(ret.Block()) {
 							good = false
 						}
 					}
